@@ -20,7 +20,8 @@
 
    What is NOT in the operation alphabet (and therefore constant in every run of the machine): names,
    residue names, atom ids, velocities, indices and bonds of existing cells, the molecule name, the
-   residue structure of a molecule.  The property speaks of coordinate changes only.  In particular the
+   residue structure of a molecule.  Coordinates and residue NUMBERS (gro and topology) of every live
+   molecule can be changed by operations.  In particular the
    consistency test of the Atom / Molecule constructors (gro name = top name, same number of atoms) is not
    re-evaluated by the model: its operands cannot change. *)
 From Coq Require Import String.
@@ -286,12 +287,30 @@ Definition poke (h : heap) (m : mol) (i : nat) (v : vec) : res heap :=
   let* _ := nth_res (gro h) l in
   Ok (mkHeap (upd (gro h) l (set_pos v)) (top h)).
 
+(* mol.resids = [r0; r1; ...] through the public API (list form of the Molecule.resids setter) on an EXISTING
+   molecule: every atom gets the number of its residue, in its gro cell AND in its (possibly shared) top cell *)
+Definition renumber (h : heap) (m : mol) (rids : list Z) : res heap :=
+  match rids with
+  | [] => Err EIndex                                   (* new_resids[0] *)
+  | _ :: _ =>
+    let* cur := mol_resids h m in
+    if negb (Nat.eqb (length rids) (length cur)) then Err EValue else
+    let per := per_atom (m_res m) rids in
+    let* a := zip_res (m_atoms m) per in
+    let* b := zip_res (m_top m) per in
+    Ok (mkHeap (write_g (gro h) (map (fun lz => (fst lz, set_gresid (snd lz))) a))
+               (write_t (top h) (map (fun lz => (fst lz, set_tresid (snd lz))) b)))
+  end.
+
 Inductive op :=
 | Call (h : nat)               (* map(objs[h]) : a valid argument or a molecule of another species *)
 | CallNonMolecule              (* map(x) for x not a Molecule *)
 | PokeRef (i : nat) (v : vec)  (* construction reference: ref[i].position = v *)
 | PokeTgt (i : nat) (v : vec)  (* construction target:    tgt[i].position = v *)
-| PokeObj (h i : nat) (v : vec). (* a previous argument or a previously returned molecule *)
+| PokeObj (h i : nat) (v : vec)  (* a previous argument or a previously returned molecule *)
+| RenumRef (rids : list Z)     (* construction reference: ref.resids = rids (gro and topology numbers) *)
+| RenumTgt (rids : list Z)     (* construction target *)
+| RenumObj (h : nat) (rids : list Z). (* any handle, e.g. a molecule sharing the reference's topology *)
 
 Inductive out :=
 | OCall (r : res dump)
@@ -313,6 +332,13 @@ Definition step (st : state) (o : op) : state * out :=
       match nth_error (s_objs st) h with
       | None => (st, OPoke (Err EIndex))
       | Some m => with_heap st (poke (s_heap st) m i v)
+      end
+  | RenumRef rids => with_heap st (renumber (s_heap st) (e_ref (s_map st)) rids)
+  | RenumTgt rids => with_heap st (renumber (s_heap st) (e_tgt (s_map st)) rids)
+  | RenumObj h rids =>
+      match nth_error (s_objs st) h with
+      | None => (st, OPoke (Err EIndex))
+      | Some m => with_heap st (renumber (s_heap st) m rids)
       end
   end.
 
@@ -352,7 +378,8 @@ Arguments g_pos {vec}. Arguments g_vel {vec}. Arguments gro {vec}. Arguments top
 Arguments s_heap {vec fr}. Arguments s_objs {vec fr}. Arguments s_map {vec fr}.
 Arguments e_ref {vec fr}. Arguments e_tgt {vec fr}. Arguments e_refsys {vec fr}. Arguments e_ec {vec fr}.
 Arguments Call {vec}. Arguments CallNonMolecule {vec}. Arguments PokeRef {vec}. Arguments PokeTgt {vec}.
-Arguments PokeObj {vec}. Arguments OCall {vec}. Arguments OPoke {vec}.
+Arguments PokeObj {vec}. Arguments RenumRef {vec}. Arguments RenumTgt {vec}. Arguments RenumObj {vec}.
+Arguments OCall {vec}. Arguments OPoke {vec}.
 
 (* ------------------------------------------------------------------------------------------------ *)
 (* A concrete core over a Scalar, for references of >= 3 atoms (the quantifier of C04):
